@@ -2109,6 +2109,10 @@ class TensorDictFuture:
     def result(self):
         """Wait and returns the resulting tensordict."""
         concurrent.futures.wait(self.futures)
+        # a writer that failed must fail the call, as it does without return_early
+        # and without threads
+        for future in self.futures:
+            future.result()
         # the writers are done: the result, locked node by node by _memmap_, gets its lock graph
         from tensordict.base import _lock_graph
 
